@@ -22,6 +22,11 @@ def eps_class(fit, phi, npts, loc=1.0):
             return max(1e-12, 5e-14 * (1 + loc) * (1 + 1 / (100 * a)))
         return 2e-3
     if a >= 1e-2:
+        if 1.5e-8 * loc > a / 60:
+            # MINPACK's forward-difference step (sqrt(eps_mach) x |centre coordinates|) is comparable with the sagitta of the
+            # arc: the fit can stop at a far-away centre, i.e. the chord direction (probe p21: err/|phi| = 1.0 for
+            # loc >= 1e5 and |phi| < 0.1, <= 2e-4 otherwise)
+            return max(2e-2, 1.2 * a)
         return 1e-5 * (1 + loc / 1e3)
     return 2e-2
 
